@@ -1,5 +1,6 @@
 """Shared machinery for C35 (spec/TxPool.tla): TLC runs, replay on the real TXPool + IncrementValidator, oracle."""
 import os
+import re
 import vf
 
 os.environ.setdefault("JAVA_TOOL_OPTIONS", "-XX:ParallelGCThreads=3")  # many builders share the box: small GC teams
@@ -227,3 +228,33 @@ def judge(ctx, paths, obs, stats):
     if drift > 5:
         ctx.infra("MODEL-DRIFT: %d paths diverged from the model" % drift)
     return drift
+
+
+def check_valid_height(ctx, cases, max_blocks_of):
+    """cases: dict (vbase, vlen, height, tag) -> (valid, vbase', vlen') taken from the model's Propose edges.  The real
+    consensus/vbft Server.validHeight (+ the real IncrementValidator) must compute the same: this binds the proposer logic
+    that the TXPool harness replicates (solo makeBlock) to the repository's code."""
+    binary = ctx.go_test_bin("consensus/vbft", harness="b_p2p_vbftvh", hide_own_tests=True)
+    if not binary:
+        return 0
+    keys = sorted(cases)
+    fin = os.path.join(ctx.scratch, "validheight.in.json")
+    fout = os.path.join(ctx.scratch, "validheight.out.ndjson")
+    vf.write_json(fin, [{"vbase": k[0], "vlen": k[1], "height": k[2], "maxBlocks": max_blocks_of[k[3]]} for k in keys])
+    rc, out = ctx.run_bin(binary, "TestVerifValidHeight", env={"VERIF_IN": fin, "VERIF_OUT": fout}, timeout=600)
+    if rc != 0:
+        ctx.infra("validHeight harness failed rc=%s" % rc)
+        return 0
+    res = vf.read_ndjson(fout)
+    if len(res) != len(keys):
+        ctx.infra("validHeight harness: %d of %d cases" % (len(res), len(keys)))
+        return 0
+    bad = 0
+    for k, o in zip(keys, res):
+        valid, b2, l2 = cases[k]
+        if (o["valid"], o["start"], o["end"]) != (valid, b2, b2 + l2):
+            bad += 1
+            if bad <= 3:
+                ctx.infra("MODEL-DRIFT: vbft validHeight for window [%d,%d) at ledger height %d gives valid=%d window [%d,%d); model valid=%d window [%d,%d)" % (
+                    k[0], k[0] + k[1], k[2], o["valid"], o["start"], o["end"], valid, b2, b2 + l2))
+    return len(keys)
